@@ -365,10 +365,16 @@ numbers = st.one_of(
                      '0.1', '3.14', '2.50', '18446744073709551616',
                      '9007199254740993', '0.30000000000000004']))
 
+# (letters and digits whose compatibility / canonical normal forms differ
+# from themselves: micro sign, ohm and angstrom signs, ligature fi,
+# full-width A, long s, superscript two, long s with dot, the digraph DZ)
+UNNORMALISED = ['\u00b5', '\u2126', '\u212b', '\ufb01', '\uff21', '\u017f',
+                '\u1e9b', '\u01c4']
 ident_start = st.one_of(st.sampled_from(
-    list('abcxyzABC_') + ['é', 'ß', 'Ω', '中']))
-ident_rest = st.text(st.one_of(st.sampled_from(
-    list('abcxyz_019') + ['é', 'Ω', '中', '٣'])), max_size=8)
+    list('abcxyzABC_') + ['é', 'ß', 'Ω', '中'] + UNNORMALISED))
+ident_rest = st.lists(st.sampled_from(
+    list('abcxyz_019') + ['é', 'Ω', '中', '٣', '\u00b2', '\u2460'] +
+    UNNORMALISED), max_size=8).map(''.join)
 words = st.one_of(
     st.builds(lambda a, b: a + b, ident_start, ident_rest),
     st.sampled_from(['true', 'false', 'null', 'and', 'or', 'not', 'in',
